@@ -30,7 +30,8 @@ def run(R):
               "admissible box (limb in {0, max headroom}) for sub/mul, canonicalisation boundaries (p-1..2^255-1 in two "
               "representations), one-past-nominal limbs, carry extremes of the 121666 multiplication, operation chains, "
               "seeded random limbs anywhere in the headroom; every operation of internal/field on the amd64 assembly, the "
-              "portable 64-bit code (feMulGeneric/fePow2kGeneric directly and the purego build) and the 32-bit backend; "
+              "portable 64-bit code (feMulGeneric/fePow2kGeneric directly and the purego build), the 32-bit backend and the AVX2 vector "
+              "lanes (fieldElement2625x4 Mul / SquareAndNegateD / Reduce / Neg / ConditionalSelect / Split from raw lanes with bit excess 1.5); "
               "TLC evaluates the F_p specification (BigNat) on every event; distinct = distinct (op, backend, inputs)")
     R.assumptions += ["TLC/SANY, CommunityModules overrides", "BigNat/F25519 layer", "go test -overlay",
                       "sqrt_ratio_i judged by its certificate form, proved equivalent to the declarative contract on the toy fields (MC_Edwards)"]
@@ -43,6 +44,17 @@ def run(R):
         R.count_events(files, key=lambda e: e.get("bk", "?") + ":" + e.get("op", "?"))
         rej = R.validate(MODULE, files, label=lab, timeout=3000)
         report_rejects(R, rej, describe, {"module": MODULE, "n": n})
+    # fourth backend: AVX2 vector lanes (only when the CPU has AVX2; recorded in the evidence)
+    from props import ovl
+    files = ovl.record(R, "curve", ovl.CURVE_FILES + ["curve/zz_verif_c04_amd64_test.go"], "TestVerifRecC04Vec", "default",
+                       {"VERIF_N": 600 if R.tier == "quick" else 12000})
+    R.cov["avx2_lanes_live"] = bool(files)
+    if files:
+        R.count_events(files, key=lambda e: "avx2:" + e.get("op", "?"))
+        rej = R.validate(MODULE, files, label="default/avx2-lanes", timeout=3000)
+        report_rejects(R, rej, describe, {"module": MODULE, "n": n})
+    else:
+        R.notes.append("AVX2 not available on this host: vector lanes not exercised limb by limb")
 
 
 def replay(R, path):
